@@ -24,6 +24,10 @@ func main() {
 		gcsChildMain()
 		return
 	}
+	if os.Getenv(sizeChildEnv) != "" {
+		sizeChildMain()
+		return
+	}
 	runtime.LockOSThread() // CPU-time clock of this thread, see cpuNow
 	// safety net: nothing this harness does legitimately needs more than a few hundred MB; a run-away
 	// allocation in the code under test kills the harness (reported by bin/check) instead of the machine
@@ -65,12 +69,16 @@ func main() {
 		f()
 		phases[name] = time.Since(t).Milliseconds()
 	}
+	// round 3: the size sweeps (and the declared-count differential) run first, in a child process with a deadline:
+	// an entry point found to hang there is not driven into the same hang by the in-process scaling probes
+	phase("size-sweeps", runSizes)
 	phase("strings", func() { runStrings(rng) })
 	phase("synthetic-nets+constructors", func() { runSyntheticNets(rng); runConstructors(rng) })
 	phase("json", func() { runJSON(rng) })
 	phase("wire", func() { runWire(rng) })
 	phase("bloom-scripts", func() { runBloomScripts(rng) })
 	phase("gcs", runGCS)
+	phase("scaling-round3", func() { scaleStrings3(rng); scaleJSON(rng); scaleWire3(rng) })
 	phases["total"] = time.Since(t0).Milliseconds()
 	finish()
 	fmt.Printf("c08: %d implementation executions, %d correspondence cases, %d monitor violations\n", rep.Evaluations, rep.Cases, len(rep.Violations))
@@ -83,12 +91,15 @@ func finish() {
 	rep.Extra["duplicate_cases_dropped"] = cases.Dups
 	rep.Extra["budgets"] = map[string]interface{}{
 		"alloc":            "TotalAlloc delta of one call <= 64 KiB + 4096 * len(input) (+ what the wire deserialiser itself allocated on the same bytes, for NewBlock*/NewTx*)",
-		"time":             fmt.Sprintf("one call <= %v + %v * len(input) of thread CPU time, minimum of up to three runs", timeBase, timePerByte),
+		"time":             fmt.Sprintf("one call <= %v + %v * len(input) of CPU time, the larger of the calling thread's clock and the whole process's clock (getrusage), minimum of up to three runs", timeBase, timePerByte),
 		"hang":             fmt.Sprintf("watchdog: a call running longer than %v is reported as C08:<entry>:time and the harness stops", hardLimit),
-		"scaling":          fmt.Sprintf("T(2n)/T(n) <= %.1f once T(2n) > %v, and T(2n) <= %v", ratioMax, ratioFloor, scaleCap),
+		"scaling":          fmt.Sprintf("thread CPU T(2n)/T(n) <= %.1f once T(2n) > %v, and T(2n) <= %v; process CPU (getrusage, all goroutines) Tproc(2n)/Tproc(n) <= %.1f once Tproc(2n) > %v; allocation A(2n)/A(n) <= %.1f once A(2n) > %d bytes", ratioMax, ratioFloor, scaleCap, procRatioMax, procRatioFloor, allocRatioMax, allocRatioFloor),
+		"declared_counts":  fmt.Sprintf("same body, different claimed count: A(hostile count) <= max A(honest counts) + %d + %d*len(body)", diffSlack, diffPerByte),
+		"size_sweep_hang":  fmt.Sprintf("child process; a probe that burns more than %v of CPU or does not return within %v is a hang", sizeCPULimit, sizeWallLimit),
 		"gcs_child_memory": fmt.Sprintf("ulimit -v %d KiB", gcsMemCapKiB),
 	}
 	rep.Extra["scaling_probes"] = scaleObs
+	rep.Extra["declared_count_observations"] = diffObs
 	rep.Extra["phase_ms"] = phases
 	// dependencies are observed, not proved: record what they did beyond the budget
 	var deps []interface{}
